@@ -79,6 +79,30 @@ func (c *Ctx) walletConfigFlow() {
 		})
 		c.check(okCall, R, "applyOptions applies every option to the returned Options", f.Pos(), "for o in opts: o(&options)", "applyOptions no longer calls each option on the Options value it returns")
 	}
+	// 1b. defaultOr: the explicit value is used whenever one was given (nil is the only "unset")
+	if f := c.mustFn(R, "wallet", "defaultOr"); f != nil {
+		okv := false
+		for _, r := range returnsOf(f) {
+			v := retVal(r, 0)
+			u, isLoad := v.(*ssa.UnOp)
+			if !isLoad || u.Op != token.MUL || u.X != ssa.Value(f.Params[0]) {
+				continue
+			}
+			fs := factsAt(f, r.Block())
+			okv = len(fs) == 1
+			if okv {
+				isN, eq := nilTest(fs[0].Cond, ssa.Value(f.Params[0]))
+				okv = isN && eq != fs[0].Truth
+			}
+		}
+		other := false
+		for _, r := range returnsOf(f) {
+			if retVal(r, 0) == ssa.Value(f.Params[1]) {
+				other = true
+			}
+		}
+		c.check(okv && other, R, "defaultOr(v, d) = *v whenever v != nil, else d", f.Pos(), "the only condition is the nil test", "wallet.defaultOr no longer returns the given value for every non-nil pointer (an explicit zero is treated as unset): WithSubWalletID(0) / WithNetworkGlobalID(0) silently become the defaults, so distinct configurations share an address")
+	}
 	// 2. public entry points pass every parameter on
 	for _, name := range []string{"GenerateWalletAddress", "GenerateStateInit"} {
 		f := c.mustFn(R, "wallet", name)
@@ -610,6 +634,18 @@ func (c *Ctx) sendPipeline() {
 			}
 		}
 		c.check(okC && n >= 2, R, "success is returned only without a wait or once the seqno has advanced", f.Pos(), fmt.Sprintf("%d success exits, each behind waitingConfirmation == 0 or newSeqno > seqno", n), "RawSendV2 can return a nil error after a confirmation wait without having observed newSeqno > seqno (or the confirmation test is gone)")
+		// the poll interval is fixed for the whole wait (a fraction of the window): a growing interval can
+		// step over the end of the window and miss a confirmation that arrived in time
+		for _, cl := range callsTo(f, "time.Sleep") {
+			if !inLoop(cl.Block()) {
+				continue
+			}
+			grows := derivesFrom(cl.Call.Args[0], func(v ssa.Value) bool {
+				ph, ok := v.(*ssa.Phi)
+				return ok && inLoop(ph.Block())
+			}, false)
+			c.check(!grows && strings.Join(leaves(cl.Call.Args[0]), ",") == "#6", R, "the confirmation poll interval is a fixed fraction of the requested wait", cl.Pos(), "time.Sleep(waitingConfirmation / k)", "RawSendV2 sleeps between polls for a duration that changes from poll to poll (or does not derive from the requested wait): a back-off can overshoot the deadline and report a timeout although the seqno advanced within the window")
+		}
 		// GetSeqno is asked for the wallet's own address
 		allInstrs(f, func(_ *ssa.BasicBlock, in ssa.Instruction) {
 			if cl, ok := in.(*ssa.Call); ok && cl.Call.IsInvoke() && cl.Call.Method.Name() == "GetSeqno" {
@@ -617,7 +653,7 @@ func (c *Ctx) sendPipeline() {
 			}
 		})
 	}
-	c.floor(R, 9)
+	c.floor(R, 10)
 }
 
 func (c *Ctx) seedRules() {
